@@ -36,10 +36,56 @@ def gen_curve(rng, g, n, heavy):
     for it in range(n):
         regs = {}
         lines, exp, cl = [], [], set()
+        ctor_n = [0]
         nops = rng.randrange(1, 13) if rng.randrange(3) else 1
 
         def fresh():
             t = rng.randrange(6)
+            if isinstance(g, WeierG) and rng.randrange(5) == 0:
+                # operand built by the coordinate constructors (into a register that already holds a point)
+                p = g.p
+                ctor_n[0] += 1
+                k = 6 + ctor_n[0] % 20
+                P = rng.choice(specials) if rng.randrange(4) == 0 else g.rand_point(rng)
+                le = lambda v: (v % (1 << 256)).to_bytes(32, "little").hex()
+                how = rng.randrange(8)
+                if how <= 2 and not g.is_neutral(P):
+                    lam = rng.choice([1, p - 1, 2, rng.randrange(1, p), rng.randrange(1, p)])
+                    X, Y, Z = P[0] * lam % p, P[1] * lam % p, lam
+                    if rng.randrange(4) == 0 and X + p < (1 << 256):
+                        X += p
+                    lines.append(T + "set_projective >%d %s %s %s" % (k, le(X), le(Y), le(Z))); exp.append("OK %s %s" % (OKST, g.enc(P)))
+                    cl.add("ctor:projective-valid")
+                elif how == 3:
+                    X, Y = rng.choice([(0, 0), (0, 1), (1, 0), (rng.randrange(p), rng.randrange(p)), (rng.randrange(p), 0), (0, rng.randrange(p))])
+                    P = g.neutral
+                    lines.append(T + "set_projective >%d %s %s %s" % (k, le(X), le(Y), le(rng.choice([0, 0, p])))); exp.append("OK %s %s" % (OKST, g.enc(P)))
+                    cl.add("ctor:projective-infinity(%s:%s:0)" % ("0" if X == 0 else "X", "0" if Y == 0 else "Y"))
+                elif how == 4:
+                    Q = g.rand_point(rng)
+                    while g.is_neutral(Q):
+                        Q = g.rand_point(rng)
+                    X, Y, Z = Q[0], Q[1], 1
+                    w = rng.randrange(4)
+                    if w == 0: Y = (Y + 1) % p
+                    elif w == 1: Z = rng.randrange(2, p)
+                    elif w == 2: X = (X + 1) % p
+                    else: X, Y = Y, X
+                    P = g.neutral
+                    lines.append(T + "set_projective >%d %s %s %s" % (k, le(X), le(Y), le(Z))); exp.append("OK %s %s" % (NOST, g.enc(P)))
+                    cl.add("ctor:projective-invalid")
+                elif how <= 6 and not g.is_neutral(P):
+                    lines.append(T + "set_affine >%d %s %s" % (k, le(P[0] + (p if rng.randrange(4) == 0 and P[0] + p < (1 << 256) else 0)), le(P[1]))); exp.append("OK %s %s" % (OKST, g.enc(P)))
+                    cl.add("ctor:affine-valid")
+                else:
+                    x, y = rng.choice([(0, 0), (0, 1), (rng.randrange(p), rng.randrange(p))])
+                    if g.C.on_curve((x, y)):
+                        x, y = 0, 0
+                    P = g.neutral
+                    lines.append(T + "set_affine >%d %s %s" % (k, le(x), le(y))); exp.append("OK %s %s" % (NOST, g.enc(P)))
+                    cl.add("ctor:affine-invalid")
+                if g.is_neutral(P): cl.add("operand-neutral")
+                return "$%d" % k, P
             if t == 0:
                 P = rng.choice(specials)
                 cl.add("operand-special")
@@ -180,6 +226,9 @@ def main(argv):
         req += ["ed25519:operand-low-order", "ed448:operand-low-order", "ed25519:operand-not-in-subgroup", "ed448:operand-not-in-subgroup",
                 "ristretto255:operand-torsion-shifted", "decaf448:operand-torsion-shifted", "jq255e:operand-negated-eu", "jq255s:operand-negated-eu",
                 "ed25519:xdouble-reaches-neutral"]
+        for c in ("p256", "secp256k1"):
+            req += [c + ":ctor:projective-valid", c + ":ctor:projective-infinity(0:0:0)", c + ":ctor:projective-infinity(X:Y:0)", c + ":ctor:projective-invalid",
+                    c + ":ctor:affine-valid", c + ":ctor:affine-invalid"]
         rep.require(*req)
     except Inconclusive as e:
         rep.incon.append(str(e))
